@@ -22,7 +22,7 @@ Same(a, b) == Len(a) = Len(b) /\ \A i \in 1..Len(a) :
                 /\ \A j \in 1..Len(a[i].e) : a[i].e[j] = b[i].e[j]
 ObsIs(o) == Same(Evs(o.con), last'.exp.con) /\ Same(Evs(o.nexus), last'.exp.nexus)
 
-TrPart == IsEvent("Part") /\ Part(Ev.args.k, Ev.args.more, Ev.args.n) /\ Ev.wf /\ ObsIs(Ev.obs)
+TrPart == IsEvent("Part") /\ Part(Ev.args.k, Ev.args.more, Ev.args.n, Ev.args.raw) /\ Ev.wf /\ ObsIs(Ev.obs)
 TrOther == IsEvent("Other") /\ Other(Ev.args.kind) /\ Ev.wf /\ ObsIs(Ev.obs)
 
 TrNext == TrPart \/ TrOther
